@@ -256,6 +256,8 @@ pub fn run(run: &mut Run) {
     run.rule = "cases: images 1x1..40x40 (incl. 1xk, kx1) with arbitrary pixels biased to palette colours and near misses, all alpha values; palettes obtained by loading a generated file with a palette chunk (1..600 entries, first index 0..355 so ranges cross 256, duplicate colours); MappingOptions over all failure/transparent values. Oracle: extrude_border(img) is (w+2)x(h+2) with pixel (x,y) = img(clamp(x-1), clamp(y-1)); lookup: alpha != 255 -> transparent or failure index; opaque colour with all occurrences < 256 -> an index with that RGB; absent or only >= 256 -> failure; mixed -> a matching index < 256 or failure; to_indexed_image returns the dimensions and lookup of each pixel in row-major order. non-trivial: w,h >= 2, non-uniform image, and a palette with a duplicate or an index >= 256; distinct by image+palette hash".into();
     let (lanes, cases) = if run.thorough() { (16, 50000) } else { (16, 6000) };
     run_tapes(run, lanes, cases, 400, &check);
+    // thorough only: coverage-guided search over generator tapes with the same oracle
+    crate::fuzzstage::fuzz_tapes(run, 400, 120);
 }
 
 pub fn replay(case: &serde_json::Value) -> CheckResult {
